@@ -9,6 +9,8 @@ use std::ops::{Deref, DerefMut};
 use std::time::Duration;
 
 pub struct Mutex<T: ?Sized> {
+    /// simulated thread holding the lock (diagnostics; usize::MAX = free)
+    owner: std::sync::atomic::AtomicUsize,
     inner: std::sync::Mutex<T>,
 }
 
@@ -19,7 +21,7 @@ pub struct MutexGuard<'a, T: ?Sized + 'a> {
 
 impl<T> Mutex<T> {
     pub const fn new(t: T) -> Mutex<T> {
-        Mutex { inner: std::sync::Mutex::new(t) }
+        Mutex { owner: std::sync::atomic::AtomicUsize::new(usize::MAX), inner: std::sync::Mutex::new(t) }
     }
     pub fn into_inner(self) -> LockResult<T> {
         self.inner.into_inner()
@@ -32,6 +34,7 @@ impl<T: ?Sized> Mutex<T> {
     }
 
     fn wrap<'a>(&'a self, g: std::sync::MutexGuard<'a, T>) -> MutexGuard<'a, T> {
+        self.owner.store(rt::current_tid(), std::sync::atomic::Ordering::Relaxed);
         MutexGuard { guard: Some(g), mutex: self }
     }
 
@@ -54,6 +57,8 @@ impl<T: ?Sized> Mutex<T> {
                     return Err(PoisonError::new(self.wrap(p.into_inner())))
                 }
                 Err(TryLockError::WouldBlock) => {
+                    let o = self.owner.load(std::sync::atomic::Ordering::Relaxed);
+                    rt::note_holder(if o == usize::MAX { None } else { Some(o) });
                     rt::block(self.key(), None);
                 }
             }
@@ -118,6 +123,7 @@ impl<T: ?Sized> DerefMut for MutexGuard<'_, T> {
 impl<T: ?Sized> Drop for MutexGuard<'_, T> {
     fn drop(&mut self) {
         if let Some(g) = self.guard.take() {
+            self.mutex.owner.store(usize::MAX, std::sync::atomic::Ordering::Relaxed);
             drop(g);
             rt::wake_all(self.mutex.key());
         }
@@ -181,6 +187,7 @@ impl Condvar {
         rt::point(Op::CondWait);
         // release the mutex and enqueue atomically (no scheduling point in between)
         let g = guard.guard.take().unwrap();
+        mutex.owner.store(usize::MAX, std::sync::atomic::Ordering::Relaxed);
         drop(g);
         rt::wake_all(mutex.key());
         drop(guard);
